@@ -142,6 +142,34 @@ func C07(ctx *Ctx) {
 			rep("no-other-writer", trkErr, "tracker untouched")
 		}
 	}
+	// every other (non-emitting) method of the Emitter: the tracker is not in its modification set
+	{
+		ms := newModSets(ctx)
+		emitNames := map[string]bool{}
+		for _, e := range ems {
+			if e.K > 0 && e.Opcode >= 0 {
+				emitNames[e.Fn.Name()] = true
+			}
+		}
+		for _, m := range roles.Methods {
+			n := m.Name()
+			if emitNames[n] || n == "AssumeREP" || n == "AssumeSEP" {
+				continue
+			}
+			if n == "Append" {
+				// Append adopts the widths of the appended emitter, which carried on from this one's (C16)
+				continue
+			}
+			R.Count("non-emitting-methods", 1)
+			fields, _ := ms.FieldsOfParam(m, 0, roles.Named)
+			if es := fields[roles.Tracker]; len(es) > 0 {
+				R.Fail("no-other-writer", "method:"+n, ctx.Prog.Pos(m.Pos()), "changes the tracked widths: "+effectList(ctx, es))
+			} else {
+				R.Pass("no-other-writer", "method:"+n, ctx.Prog.Pos(m.Pos()), "tracker not in the modification set")
+			}
+		}
+		R.Floor("non-emitting-methods", 10)
+	}
 	// CPU side of no-other-writer
 	for _, rel := range cpuRels {
 		bad := aggMap{}
